@@ -211,6 +211,21 @@ func c05Gen(tier string, seed int64) []core.Case {
 		id := "eddsa-keygen/dealer-with-small-order-components-in-its-commitments@mid"
 		cs = append(cs, core.Case{ID: id, Class: id, Kind: "torsion-dealer", P: sc.P(), Cost: 1})
 	}
+	// EdDSA points sent as a pair of scalar fields (the commitment of a Schnorr proof): shifted by the point of order 2
+	for _, sc := range faultSessions(tier) {
+		if !strings.HasPrefix(sc.proto, "eddsa") {
+			continue
+		}
+		for _, fi := range staticFields[sc.proto] {
+			if fi.Repeated || !strings.HasSuffix(fi.Field, "_x") {
+				continue
+			}
+			add := faultSpec{fi.Type, fi.Field, "", "torsion2", poss[k%3], false, ""}
+			id := fmt.Sprintf("%s/%s", sc.proto, add.String())
+			cs = append(cs, core.Case{ID: id, Class: id, Kind: "field", P: add.P(sc.P()), Cost: sc.cost})
+			k++
+		}
+	}
 	{
 		// the same for a signer's nonce commitment R_j in EdDSA signing (all three holders of a (3,1) key sign)
 		sc := sessCfg{"eddsa-signing", 3, 1, []int{0, 1, 2}, 0, 0, "seeded", 0.5}
